@@ -217,7 +217,7 @@ def main(chk, replay=None):
             chk.traces += 1
     chk.logged['gstd_vs_definition'] = gstd_obs
     from harness import session
-    session.run(chk, 'C12', every=8 if chk.quick else 1)    # spec/Session.tla: the property in every state of analysis sessions
+    session.run(chk, 'C12', every=12 if chk.quick else 1)    # spec/Session.tla: the property in every state of analysis sessions
     chk.exhaustive = True
 
 
